@@ -82,7 +82,7 @@ Section Snapshot.
     destruct (if filt then _ else _) as [X1 G2].
     destruct (is_f0_target_reached _ _); [unfold ret in HD; inversion HD; subst; destruct Hin|].
     destruct (is_f0_min_change_reached _ _ _); [unfold ret in HD; inversion HD; subst; destruct Hin|].
-    destruct (update_mem K c _ _ _ _ _) as [[X2 G3] m2].
+    destruct (update_mem_f K c _ _ _ _ _ _) as [[X2 G3] m2].
     destruct (u_cb U) as [cb|]; [|unfold ret in HD; inversion HD; subst; destruct Hin].
     apply (bind_in _ _ _ _ _ HD) in Hin as [Hin|(b' & q1 & q2 & Q1 & Q2 & Hin)].
     - cbn in Hin. destruct Hin as [Hin|[]]. inversion Hin as [[Hs Hb]]. clear Hin.
@@ -101,7 +101,7 @@ Section Snapshot.
       destruct (if filt then _ else _) as [X1 G2].
       destruct (is_f0_target_reached _ _); [unfold ret in HB; inversion HB; subst; discriminate|].
       destruct (is_f0_min_change_reached _ _ _); [unfold ret in HB; inversion HB; subst; discriminate|].
-      destruct (update_mem K c _ _ _ _ _) as [[X2 G3] m2].
+      destruct (update_mem_f K c _ _ _ _ _ _) as [[X2 G3] m2].
       destruct (u_cb U) as [cb|]; [|unfold ret in HB; inversion HB; subst; reflexivity].
       apply bind_ok_inv in HB as (b' & q1 & q2 & Q1 & Q2 & ->). destruct b'; unfold ret in Q2; inversion Q2; subst; reflexivity.
     - unfold ret in HB. inversion HB as [[H0]]. unfold fail_step in H0. destruct (_ =? _)%nat; inversion H0; subst; [discriminate|reflexivity].
